@@ -245,16 +245,37 @@ const filePortChanSize = 32
 func FilePort(f *os.File, valuePrefix string) (*Port, func()) {
 	ch := make(chan any, filePortChanSize)
 	relayDone := make(chan struct{})
+	// The channel is never closed: a background job may still be sending to it
+	// when the port is cleaned up, and a send on a closed channel panics.
+	// Instead, the cleanup function closes stop, after which senders get
+	// stopError and the relay writes what is already in the channel.
+	stop := make(chan struct{})
+	var stopError error = errs.ReaderGone{}
+	relay := func(v any) {
+		f.WriteString(valuePrefix)
+		f.WriteString(vals.ReprPlain(v))
+		f.WriteString("\n")
+	}
 	go func() {
-		for v := range ch {
-			f.WriteString(valuePrefix)
-			f.WriteString(vals.ReprPlain(v))
-			f.WriteString("\n")
+		defer close(relayDone)
+		for {
+			select {
+			case v := <-ch:
+				relay(v)
+			case <-stop:
+				for {
+					select {
+					case v := <-ch:
+						relay(v)
+					default:
+						return
+					}
+				}
+			}
 		}
-		close(relayDone)
 	}()
-	return &Port{File: f, Chan: ch}, func() {
-		close(ch)
+	return &Port{File: f, Chan: ch, sendStop: stop, sendError: &stopError}, func() {
+		close(stop)
 		<-relayDone
 	}
 }
